@@ -619,12 +619,33 @@ type reverseSegmentScanner struct {
 // newReverseSegmentScanner creates a scanner that iterates from the given
 // offset backwards.
 func newReverseSegmentScanner(segment *segment, startOffset int64) *reverseSegmentScanner {
-	// Convert log offset to index entry offset
-	entryOffset := startOffset - segment.BaseOffset
+	// Find the index entry to start from: the last entry whose offset is less
+	// than or equal to the start offset. Offsets in a segment are not
+	// necessarily contiguous (compaction), so the entry has to be searched for
+	// rather than computed from the base offset.
 	return &reverseSegmentScanner{
 		s:   segment,
-		ris: newReverseIndexScanner(segment.Index, entryOffset),
+		ris: newReverseIndexScanner(segment.Index, segment.lastEntryIndexAtOrBefore(startOffset)),
 	}
+}
+
+// lastEntryIndexAtOrBefore returns the position in the index of the last entry
+// whose offset is less than or equal to the given offset or -1 if there is no
+// such entry.
+func (s *segment) lastEntryIndexAtOrBefore(offset int64) int64 {
+	s.RLock()
+	defer s.RUnlock()
+	var (
+		entry = &entry{}
+		n     = int(s.Index.CountEntries())
+	)
+	idx := sort.Search(n, func(i int) bool {
+		if err := s.Index.ReadEntryAtLogOffset(entry, int64(i)); err != nil {
+			return true
+		}
+		return entry.Offset > offset
+	})
+	return int64(idx) - 1
 }
 
 // newReverseSegmentScannerFromEnd creates a scanner that starts at the last
